@@ -249,6 +249,8 @@ def walk_stream(raw: bytes):
             if not b & 0x80:
                 break
         hb = raw[pos:pos + n]
+        if n == 0:
+            raise ValueError("empty ArchiveInfo")
         if len(hb) != n:
             raise ValueError("header runs past the end of the stream")
         pos += n
